@@ -8,9 +8,10 @@
     its keys, unless their labels contradict; empty_scope_closed): for every
     host, fuel and Ok result of the modelled breadth-first run, the number of
     entries (i, bound at a) in the result is 1 if pattern i occurs at a and 0
-    otherwise.  Not proved: matrices (decided by the multiset comparison with
-    the occurrence oracle and the correspondence of the traversal), and the
-    "exactly once per host" clause for the empty pattern (same). *)
+    otherwise; and the empty pattern (no constraints) is reported exactly once
+    per host (c07_string_empty_pattern_once).  Not proved: matrices (decided by
+    the multiset comparison with the occurrence oracle and the correspondence of
+    the traversal). *)
 From PM Require Import Model.Prelude Model.Domain Model.Automaton Model.Traversal Model.DomString
   Spec.Occ Cert.LabCheck Cert.WfCheck Cert.WinCheck Cert.CharCert Cert.UnambCheck Cert.ExampleAut
   Proofs.WfSound Proofs.LawfulDomains Proofs.StringUnique Proofs.StringExact.
@@ -42,6 +43,23 @@ Theorem c07_string_exactly_once :
     cnt (N.of_nat i) a ms = if occ_stringb p h a then 1%nat else 0%nat.
 Proof. exact s_run_exactly_once. Qed.
 
+(** the empty pattern: exactly once per host *)
+Theorem c07_string_empty_pattern_once :
+  forall (A : automaton N cpredicate) (rk : list (N * nat)) (ids : list N) (Ls : slabelling)
+         (cs : list (list (constraint N cpredicate))) (present : list bool) (h : shost) (i : nat) (fuel : nat) (ms : list (N * spm)),
+    wf_check string_dom A rk ids = true ->
+    slab_ok (char_ceqb N.eqb) (char_refutes N.eqb) A Ls = true ->
+    cert_unamb (char_ceqb N.eqb) (char_refutes N.eqb) A Ls = true ->
+    empty_scope_closed A = true -> empty_keys_at_root A = true -> empty_pattern_keys A cs = true ->
+    cert_complete (char_entails N.eqb) (char_refutes N.eqb) A cs present = true ->
+    nth_error cs i = Some [] -> nth_error present i = Some true ->
+    run string_dom fuel A h = Ok ms ->
+    cntp (N.of_nat i) ms = 1%nat.
+Proof.
+  intros A rk ids Ls cs present h i fuel ms W U1 U2 U4 U5 U6 CC Hi Hp R.
+  exact (s_empty_once A ids (wf_check_sound string_dom string_dom_eq A rk ids W) Ls U1 U2 U4 U5 cs present U6 CC h i Hi Hp fuel ms R).
+Qed.
+
 (** the hypotheses are satisfiable: the example automaton passes every certificate *)
 Example c07_example :
   s_unamb_certified ex_aut (compute_slab (char_ceqb N.eqb) (char_refutes N.eqb) ex_aut)
@@ -50,3 +68,4 @@ Proof. unfold s_unamb_certified. vm_compute. repeat split; eauto. Qed.
 
 Print Assumptions c07_string_at_most_once.
 Print Assumptions c07_string_exactly_once.
+Print Assumptions c07_string_empty_pattern_once.
